@@ -17,8 +17,9 @@ pub struct Cfg {
     pub placement: u8,
     pub announcer: usize,
     pub searcher: usize,
-    /// second announcer (announces `second_gap_ms` after the first one's search ended)
+    /// second announcer (announces `announcer2_gap_ms` after the first one's search ended)
     pub announcer2: Option<usize>,
+    pub announcer2_gap_ms: u64,
     /// ms between the end of the (last) announcing search and the start of the search
     pub offset_ms: u64,
     /// re-announce by the first announcer at this offset after its first announce ended
@@ -92,7 +93,7 @@ pub fn scenario(cfg: &Cfg) -> Scenario {
     sc.actions.push((When::At(4_000), Action::Search { node: cfg.announcer, info_hash: ih, announce: true, tag: "ann".into() }));
     let mut last = "ann".to_string();
     if let Some(a2) = cfg.announcer2 {
-        sc.actions.push((When::After { tag: "ann".into(), delay: 500 }, Action::Search { node: a2, info_hash: ih, announce: true, tag: "ann2".into() }));
+        sc.actions.push((When::After { tag: "ann".into(), delay: cfg.announcer2_gap_ms }, Action::Search { node: a2, info_hash: ih, announce: true, tag: "ann2".into() }));
         last = "ann2".into();
     }
     if let Some(re) = cfg.reannounce_ms {
@@ -102,7 +103,7 @@ pub fn scenario(cfg: &Cfg) -> Scenario {
     sc.actions.push((When::After { tag: last, delay: cfg.offset_ms }, Action::Search { node: cfg.searcher, info_hash: ih, announce: false, tag: "search".into() }));
     sc.stop_after = vec!["search".into()];
     sc.linger_ms = 10;
-    sc.horizon_ms = 4_000 + cfg.offset_ms + cfg.reannounce_ms.unwrap_or(0) + 120_000;
+    sc.horizon_ms = 4_000 + cfg.offset_ms + cfg.reannounce_ms.unwrap_or(0) + cfg.announcer2_gap_ms + 120_000;
     if let Some(m) = cfg.matrix {
         let n = cfg.n;
         let v6 = cfg.v6;
@@ -193,31 +194,34 @@ pub fn judge(cfg: &Cfg, res: &RunResult) -> Verdict {
             if let (Some(a2), Some(r0), Some(r1)) = (cfg.announcer2, res.started("ann2"), res.finished("ann2")) {
                 slow |= slow_get_peers(res, node_addr(a2, cfg.v6), r0, r1);
             }
-            let since_last_announce = cfg.offset_ms;
             let day = 86_400_000u64;
-            let mut wants = vec![(cfg.announcer, want)];
-            if let Some(a2) = cfg.announcer2 {
-                wants.push((a2, expected_addr(cfg, a2)));
+            // (announcer, expected address, end of its last announcing search)
+            let mut wants: Vec<(usize, SocketAddr, u64)> = vec![(cfg.announcer, want, res.finished("reann").unwrap_or(a1))];
+            if let (Some(a2), Some(e2)) = (cfg.announcer2, res.finished("ann2")) {
+                wants.push((a2, expected_addr(cfg, a2), e2));
             }
-            if since_last_announce <= day - 10_000 && since_last_announce >= 1_000 {
-                for (who, w) in &wants {
+            let mut any_live = false;
+            for (who, w, last) in &wants {
+                let age = s0.saturating_sub(*last);
+                if age >= 1_000 && age <= day - 10_000 {
+                    any_live = true;
                     if !items.contains(w) {
                         v.push((
                             if slow { "lookup-rtt>1.5s".to_string() } else { "announced-peer-not-found".to_string() },
-                            format!("search from node {} after {} ms does not yield {} (announcer {}); got {:?}", cfg.searcher, cfg.offset_ms, w, who, items),
+                            format!("search from node {} {} ms after announcer {}'s last announce does not yield {}; got {:?}", cfg.searcher, age, who, w, items),
                         ));
                     }
-                }
-            } else if since_last_announce >= day + 5_000 {
-                for a in &items {
-                    if wants.iter().any(|(_, w)| w.ip() == a.ip()) {
-                        v.push(("expired-peer-still-found".to_string(), format!("search {} ms after the last announce still yields {}", cfg.offset_ms, a)));
+                } else if age >= day + 5_000 {
+                    for a in &items {
+                        if w.ip() == a.ip() {
+                            v.push(("expired-peer-still-found".to_string(), format!("search {} ms after announcer {}'s last announce still yields {}", age, who, a)));
+                        }
                     }
                 }
             }
             // never anything but announcers' addresses in this closed world
             for a in &items {
-                if !wants.iter().any(|(_, w)| w == a) && since_last_announce < day - 10_000 {
+                if !wants.iter().any(|(_, w, _)| w == a) && any_live {
                     v.push(("unknown-peer-yielded".to_string(), format!("search yields {} which nobody announced", a)));
                 }
             }
@@ -250,7 +254,7 @@ pub fn run_cfg(cfg: &Cfg, fates: &[Option<Fate>], prefix: &[usize]) -> (RunResul
 }
 
 fn cfg_json(c: &Cfg) -> Value {
-    json!({"n":c.n,"v6":c.v6,"port":c.port,"placement":c.placement,"announcer":c.announcer,"searcher":c.searcher,"announcer2":c.announcer2,"offset_ms":c.offset_ms,"reannounce_ms":c.reannounce_ms,"matrix":c.matrix,"rng_seed":c.rng_seed})
+    json!({"n":c.n,"v6":c.v6,"port":c.port,"placement":c.placement,"announcer":c.announcer,"searcher":c.searcher,"announcer2":c.announcer2,"announcer2_gap_ms":c.announcer2_gap_ms,"offset_ms":c.offset_ms,"reannounce_ms":c.reannounce_ms,"matrix":c.matrix,"rng_seed":c.rng_seed})
 }
 fn cfg_parse(v: &Value) -> Cfg {
     Cfg {
@@ -261,6 +265,7 @@ fn cfg_parse(v: &Value) -> Cfg {
         announcer: v["announcer"].as_u64().unwrap_or(0) as usize,
         searcher: v["searcher"].as_u64().unwrap_or(1) as usize,
         announcer2: v["announcer2"].as_u64().map(|p| p as usize),
+        announcer2_gap_ms: v["announcer2_gap_ms"].as_u64().unwrap_or(500),
         offset_ms: v["offset_ms"].as_u64().unwrap_or(1000),
         reannounce_ms: v["reannounce_ms"].as_u64(),
         matrix: v["matrix"].as_u64().map(|m| m as u32),
@@ -319,7 +324,7 @@ pub fn run(tier: Tier) -> Report {
                         (0..n).flat_map(|a| (0..n).filter(move |s| *s != a).map(move |s| (a, s))).collect()
                     } else {
                         // announcer closest to / farthest from the info-hash x every other node
-                        let base = Cfg { n, v6, port, placement, announcer: 0, searcher: 1, announcer2: None, offset_ms: 1000, reannounce_ms: None, matrix: None, rng_seed: 1 };
+                        let base = Cfg { n, v6, port, placement, announcer: 0, searcher: 1, announcer2: None, announcer2_gap_ms: 500, offset_ms: 1000, reannounce_ms: None, matrix: None, rng_seed: 1 };
                         let ih: [u8; 20] = info_hash().into();
                         let mut order: Vec<usize> = (0..n).collect();
                         order.sort_by_key(|i| sim::peers::xor_dist(&node_id(&base, *i).into(), &ih));
@@ -327,7 +332,7 @@ pub fn run(tier: Tier) -> Report {
                         picks.iter().flat_map(|&a| (0..n).filter(move |s| *s != a).map(move |s| (a, s))).collect()
                     };
                     for (a, s) in pairs {
-                        cfgs.push(Cfg { n, v6, port, placement, announcer: a, searcher: s, announcer2: None, offset_ms: 1000, reannounce_ms: None, matrix: None, rng_seed: 1 + seed });
+                        cfgs.push(Cfg { n, v6, port, placement, announcer: a, searcher: s, announcer2: None, announcer2_gap_ms: 500, offset_ms: 1000, reannounce_ms: None, matrix: None, rng_seed: 1 + seed });
                     }
                 }
             }
@@ -337,7 +342,7 @@ pub fn run(tier: Tier) -> Report {
     for &n in ns.iter().filter(|n| **n >= 3).take(2) {
         for (a, b) in [(0usize, 1usize), (1, 0)] {
             for v6 in [false, true] {
-                cfgs.push(Cfg { n, v6, port: Some(4242), placement: 0, announcer: a, searcher: 2, announcer2: Some(b), offset_ms: 1000, reannounce_ms: None, matrix: None, rng_seed: 1 + seed });
+                cfgs.push(Cfg { n, v6, port: Some(4242), placement: 0, announcer: a, searcher: 2, announcer2: Some(b), announcer2_gap_ms: 500, offset_ms: 1000, reannounce_ms: None, matrix: None, rng_seed: 1 + seed });
             }
         }
     }
@@ -348,18 +353,24 @@ pub fn run(tier: Tier) -> Report {
     );
     for &off in &offsets {
         for v6 in [false, true] {
-            cfgs.push(Cfg { n: 2, v6, port: None, placement: 0, announcer: 0, searcher: 1, announcer2: None, offset_ms: off, reannounce_ms: None, matrix: None, rng_seed: 1 + seed });
+            cfgs.push(Cfg { n: 2, v6, port: None, placement: 0, announcer: 0, searcher: 1, announcer2: None, announcer2_gap_ms: 500, offset_ms: off, reannounce_ms: None, matrix: None, rng_seed: 1 + seed });
         }
-        cfgs.push(Cfg { n: 3, v6: false, port: Some(4242), placement: 1, announcer: 1, searcher: 2, announcer2: None, offset_ms: off, reannounce_ms: None, matrix: None, rng_seed: 1 + seed });
+        cfgs.push(Cfg { n: 3, v6: false, port: Some(4242), placement: 1, announcer: 1, searcher: 2, announcer2: None, announcer2_gap_ms: 500, offset_ms: off, reannounce_ms: None, matrix: None, rng_seed: 1 + seed });
     }
     // re-announce at 12 h: still found at 24 h + 5 s after the first announce, gone 24 h + 5 s after the second
     for (re, off) in [(43_200_000u64, 43_205_000u64), (43_200_000, 86_405_000)] {
-        cfgs.push(Cfg { n: 2, v6: false, port: None, placement: 0, announcer: 0, searcher: 1, announcer2: None, offset_ms: off, reannounce_ms: Some(re), matrix: None, rng_seed: 1 + seed });
+        cfgs.push(Cfg { n: 2, v6: false, port: None, placement: 0, announcer: 0, searcher: 1, announcer2: None, announcer2_gap_ms: 500, offset_ms: off, reannounce_ms: Some(re), matrix: None, rng_seed: 1 + seed });
+    }
+    // two announcers an hour apart, the first renews after 12 h; probes where only one of them is still live
+    for (n, searcher) in tier.pick(vec![(3usize, 2usize)], vec![(3, 2), (4, 3)]) {
+        for off in [3_600_000u64, 48_600_000, 87_000_000] {
+            cfgs.push(Cfg { n, v6: false, port: Some(4242), placement: 0, announcer: 0, searcher, announcer2: Some(1), announcer2_gap_ms: 3_600_000, offset_ms: off, reannounce_ms: Some(39_600_000), matrix: None, rng_seed: 1 + seed });
+        }
     }
     if tier == Tier::Thorough {
         for n in [5usize, 9] {
             for off in [86_390_000u64, 86_405_000] {
-                cfgs.push(Cfg { n, v6: false, port: None, placement: 0, announcer: 0, searcher: n - 1, announcer2: None, offset_ms: off, reannounce_ms: None, matrix: None, rng_seed: 1 + seed });
+                cfgs.push(Cfg { n, v6: false, port: None, placement: 0, announcer: 0, searcher: n - 1, announcer2: None, announcer2_gap_ms: 500, offset_ms: off, reannounce_ms: None, matrix: None, rng_seed: 1 + seed });
             }
         }
     }
@@ -390,7 +401,7 @@ pub fn run(tier: Tier) -> Report {
                 if n == 3 && tier == Tier::Quick && a == 1 {
                     continue;
                 }
-                mcfgs.push(Cfg { n, v6: false, port: None, placement: 0, announcer: a, searcher: if n == 3 { 2 } else { s }, announcer2: None, offset_ms: 1000, reannounce_ms: None, matrix: Some(m), rng_seed: 1 + seed });
+                mcfgs.push(Cfg { n, v6: false, port: None, placement: 0, announcer: a, searcher: if n == 3 { 2 } else { s }, announcer2: None, announcer2_gap_ms: 500, offset_ms: 1000, reannounce_ms: None, matrix: Some(m), rng_seed: 1 + seed });
             }
         }
     }
@@ -414,7 +425,7 @@ pub fn run(tier: Tier) -> Report {
     let bound = tier.pick(1, 2);
     for (n, a, s, v6, port, placement) in [(2usize, 0usize, 1usize, false, None, 0u8), (3, 0, 2, false, Some(4242u16), 0), (3, 2, 1, true, None, 1), (4, 1, 3, false, None, 2)] {
         let b = if n >= 4 { 1 } else if n == 2 { 2 } else { bound };
-        ecfgs.push((Cfg { n, v6, port, placement, announcer: a, searcher: s, announcer2: None, offset_ms: 1000, reannounce_ms: None, matrix: None, rng_seed: 1 + seed }, b));
+        ecfgs.push((Cfg { n, v6, port, placement, announcer: a, searcher: s, announcer2: None, announcer2_gap_ms: 500, offset_ms: 1000, reannounce_ms: None, matrix: None, rng_seed: 1 + seed }, b));
     }
     let mut levels = vec![];
     for (cfg, b) in &ecfgs {
